@@ -813,3 +813,31 @@ Definition kind_ok (nd : node) (e : ir) : Prop :=
   | EnumN => struct_of e = TEnum
   | _ => True
   end.
+
+(* ------------------------------------------------------------------ one level of inline object properties.
+   An inline object property `key` of a top-level object schema n is promoted to the schema n ++ cls key (registered under
+   that synthetic name); [nt] is the name table: declared schemas followed by the promoted inline objects.
+   [inl_spec] widens [core_spec]: properties of a top-level object may also be inline objects of core properties; the
+   executable negation of name capture is that all names of the table are distinct, and no property key is one of them. *)
+Definition is_obj (x : node) : bool := match x with Obj _ _ => true | _ => false end.
+Definition inl_prop (x : node) : bool := core_prop x || core_obj x.
+Definition inl_obj (x : node) : bool :=
+  match x with Obj ps _ => forallb (fun kv => inl_prop (snd kv)) ps | _ => false end.
+Definition inl_top (x : node) : bool := match x with Obj _ _ => inl_obj x | _ => core_top x end.
+Definition syn_of (p : str) (nd : node) : spec :=
+  match nd with
+  | Obj ps _ => flat_map (fun kv => if is_obj (snd kv) then [(p ++ cls (fst kv), snd kv)] else []) ps
+  | _ => []
+  end.
+Definition nt (S : spec) : spec := S ++ flat_map (fun p => syn_of (fst p) (snd p)) S.
+Definition deep_keys (x : node) : list str :=
+  prop_keys x ++
+  match x with
+  | Obj ps _ => flat_map (fun kv => if is_obj (snd kv) then prop_keys (snd kv) else []) ps
+  | _ => []
+  end.
+Definition inl_spec (S : spec) : bool :=
+  forallb (fun p => inl_top (snd p) && str_eqb (cls (fst p)) (fst p) && nonempty (fst p)
+                    && forallb (fun k => negb (mem_str k (map fst (nt S)))) (deep_keys (snd p))
+                    && forallb (fun m => mem_str m (map fst S)) (refs (snd p))) S     (* every $ref is declared *)
+  && nodup_strs (map fst (nt S)).
